@@ -279,6 +279,25 @@ func mutate(t *kernel.Tape, p params, payload []byte, capBytes int) (out []byte,
 			}
 		}
 		return nil, "skip"
+	case "lenbloat":
+		// encrypted streams length-prefix their strings: declare a string far larger than the
+		// cap at offset Off AND deliver it, so that a capped reader that waits for the
+		// declared length (instead of the cap) is seen consuming it
+		if p.Off+4 > len(out) {
+			return nil, "skip"
+		}
+		n := 3<<20 + capBytes
+		big := bytes.Repeat([]byte{'A'}, n)
+		big[n-1] = 0
+		var l [4]byte
+		binary.BigEndian.PutUint32(l[:], uint32(n))
+		old := int(binary.BigEndian.Uint32(out[p.Off : p.Off+4]))
+		rest := p.Off + 4 + old
+		if old < 0 || rest > len(out) {
+			rest = p.Off + 4
+		}
+		out = append(append(append(append([]byte(nil), out[:p.Off]...), l[:]...), big...), out[rest:]...)
+		return out, ""
 	case "zkm-bloat":
 		// the in-band secret marker in place of the p.Off-th run, followed by a "secret"
 		// many times the cap: the capped readers must bound what follows the marker too
@@ -406,9 +425,22 @@ func run(s *kernel.Sim, c *scen.Case) {
 	if p.Enc {
 		sst.SetSymmetricKey(key)
 	}
-	sm := message.NewMessageForStream(&rawFramer{st: sst})
-	_ = sm.PutBytes(ctx, mut)
-	_ = sm.FinishMessage(ctx)
+	// (in frames of at most 200 KB written directly: the typed layer would cut a large
+	// payload into maximum-size frames, which an encrypting stream refuses to send)
+	for off := 0; ; off += 200000 {
+		end := off + 200000
+		last := end >= len(mut)
+		if last {
+			end = len(mut)
+		}
+		if err := sst.WriteFrame(ctx, mut[off:end], last); err != nil {
+			s.Violate("harness", "framing", err.Error())
+			return
+		}
+		if last {
+			break
+		}
+	}
 	wire := sk.Bytes()
 	feed(s, p, wire, e.cap, func(st *stream.Stream) error {
 		if p.Enc {
@@ -500,7 +532,7 @@ func feed(s *kernel.Sim, p params, wire []byte, capBytes int, dec func(st *strea
 		s.Violate("stack-growth-out-of-proportion", sig, fmt.Sprintf("%s: goroutine stacks grew by %d bytes while decoding (limit 1 MiB + 8 x input): recursion depth follows the peer's input", desc, sg))
 		return
 	}
-	if capBytes > 0 && (p.Mut == "bloat" || p.Mut == "wide-ad" || p.Mut == "zkm-bloat") {
+	if capBytes > 0 && (p.Mut == "bloat" || p.Mut == "wide-ad" || p.Mut == "zkm-bloat" || p.Mut == "lenbloat") {
 		consumed := int(ep.BytesIn())
 		if derr == nil {
 			s.Violate("cap-not-enforced", sig, fmt.Sprintf("%s: a value %d times the cap was accepted", desc, p.Val))
@@ -594,7 +626,33 @@ func runBlob(s *kernel.Sim, p params) {
 		blob = append([]byte("CDRX\x00\x01"), make([]byte, 73)...)
 		blob = append(blob, byte(p.Val>>8), byte(p.Val))
 		blob = append(blob, t.Bytes("tail", p.Off)...)
+	case "valid-cut":
+		// a genuine exported state (two keyed streams, one protected message each way),
+		// cut p.Off bytes short; every blob is handed over with capacity == length, as a
+		// byte-exact message payload would be
+		net0 := simnet.New(s, simnet.Config{})
+		pr := hs.NewPair(net0, 91)
+		key := t.Bytes("key", 32)
+		pr.CS.SetSymmetricKey(key)
+		pr.SS.SetSymmetricKey(key)
+		bg := context.Background()
+		s.Go("blob-a", func() {
+			_ = pr.CS.SendMessage(bg, []byte("ping"))
+			_, _ = pr.CS.ReceiveCompleteMessage(bg)
+		})
+		s.Go("blob-b", func() {
+			_, _ = pr.SS.ReceiveCompleteMessage(bg)
+			_ = pr.SS.SendMessage(bg, []byte("pong"))
+		})
+		s.Run()
+		full, err := pr.CS.ExportCryptoState()
+		if err != nil || p.Off > len(full) {
+			s.Probe("mutation-out-of-range")
+			return
+		}
+		blob = full[:len(full)-p.Off]
 	}
+	blob = append(make([]byte, 0, len(blob)), blob...)[:len(blob):len(blob)]
 	before := allocBytes()
 	var perr any
 	func() {
@@ -816,6 +874,18 @@ func gen(g *scen.Gen) {
 						}
 					}
 				}
+				if enc {
+					off := 0
+					switch e.name {
+					case "classad-capped", "ccb-control-ad":
+						off = 8 // first expression string, after the count
+					case "ccb-reverse-connect":
+						off = 16
+					}
+					if !emit(params{Entry: e.name, Enc: true, Mut: "lenbloat", Off: off}) {
+						return
+					}
+				}
 				if strings.Contains(e.name, "ad") {
 					for k := 0; k < 4; k++ {
 						for _, times := range []int64{10, 100} {
@@ -878,6 +948,11 @@ func gen(g *scen.Gen) {
 	}
 	for _, v := range []int64{0, 1, 32, 33, 0x7fff, 0xffff} {
 		if !emit(params{Entry: "crypto-blob", Mut: "lengths", Off: 40, Val: v}) {
+			return
+		}
+	}
+	for cut := 0; cut < 200; cut++ {
+		if !emit(params{Entry: "crypto-blob", Mut: "valid-cut", Off: cut}) {
 			return
 		}
 	}
